@@ -341,6 +341,16 @@ pub struct Verdict {
     pub either: bool,
 }
 
+/// tick of a time the implementation accepted; an accepted time that is not a time (already
+/// reported as a violation by the caller) must not take the model down
+fn tick_or_zero(x: f64) -> u64 {
+    if x.is_finite() && x >= 0.0 {
+        tick(x)
+    } else {
+        0
+    }
+}
+
 impl Contract {
     pub fn new(cfg: &Cfg) -> Contract {
         Contract {
@@ -528,7 +538,11 @@ impl Contract {
             Op::EA { samples, .. } if ok => {
                 let p = self.cursor_audio;
                 self.accept_audio(p);
-                self.cursor_audio += *samples as f64 / self.audio_rate as f64;
+                // (no configured rate: only reachable when the implementation accepted a call it
+                // had to refuse, which has been reported; the model must survive it)
+                if self.audio_rate != 0 {
+                    self.cursor_audio += *samples as f64 / self.audio_rate as f64;
+                }
             }
             o if o.is_finish() => {
                 if ok {
@@ -546,18 +560,18 @@ impl Contract {
             self.first_video_pts = Some(pts);
         }
         self.last_video_pts = Some(pts);
-        self.last_video_dts_tick = Some(tick(dts));
+        self.last_video_dts_tick = Some(tick_or_zero(dts));
         self.last_video_dts_secs = Some(dts);
         if self.first_video_dts_tick.is_none() {
-            self.first_video_dts_tick = Some(tick(dts));
+            self.first_video_dts_tick = Some(tick_or_zero(dts));
         }
         self.accepted_video += 1;
     }
     fn accept_audio(&mut self, pts: f64) {
         self.last_audio_pts = Some(pts);
-        self.last_audio_tick = Some(tick(pts));
+        self.last_audio_tick = Some(tick_or_zero(pts));
         if self.first_audio_tick.is_none() {
-            self.first_audio_tick = Some(tick(pts));
+            self.first_audio_tick = Some(tick_or_zero(pts));
         }
         self.accepted_audio += 1;
     }
